@@ -147,7 +147,8 @@ def in_cleanup_block(entry):
         try:
             tree = ast.parse(open(os.path.join(PKG, fn)).read())
             for node in ast.walk(tree):
-                if isinstance(node, ast.Try) and node.finalbody:
+                if isinstance(node, ast.Try):
+                    lines.add(node.lineno)          # the `try:` header executes nothing that can raise
                     for st in node.finalbody:
                         lines.update(range(st.lineno, (st.end_lineno or st.lineno) + 1))
         except Exception:
